@@ -19,6 +19,7 @@
 #include <sys/mman.h>
 #include <execinfo.h>
 #include <dlfcn.h>
+#include <valgrind/valgrind.h>
 #include <errno.h>
 
 namespace vf {
@@ -218,6 +219,14 @@ inline void xcpu_handler(int sig, siginfo_t* si, void* uc) {
     }
     crash_handler(sig, si, uc);
 }
+// memcheck cross-check: when the harness runs under valgrind, the end of every case asks the tool how many errors it has reported so
+// far; an increase is recorded with the case in flight, so that the reports in valgrind's log (same order) can be attributed
+inline void vg_case_end() {
+    static const bool on = RUNNING_ON_VALGRIND != 0; static unsigned long last = 0;
+    if (!on) return;
+    unsigned long n = VALGRIND_COUNT_ERRORS;
+    if (n > last) { emit(std::string("{\"t\":\"vgerr\",\"n\":") + std::to_string(n - last) + ",\"index\":" + std::to_string(g_case_index) + ",\"case\":" + (g_case[0] ? g_case : "null") + "}"); last = n; }
+}
 struct CpuBudget {
     timer_t tm{};
     bool ok = false;
@@ -236,7 +245,7 @@ struct CpuBudget {
         its.it_value.tv_nsec = (long)((sec - (time_t)sec) * 1e9);
         timer_settime(tm, 0, &its, nullptr);
     }
-    void disarm() { if (!ok) return; struct itimerspec its{}; timer_settime(tm, 0, &its, nullptr); }
+    void disarm() { if (ok) { struct itimerspec its{}; timer_settime(tm, 0, &its, nullptr); } vg_case_end(); }
 };
 inline void install_handlers(bool with_segv = true) {
     struct sigaction sa{};
